@@ -4,7 +4,11 @@
 (* variable TRACE) is a sequence of blocks: a Space event (the claims the space *)
 (* makes through isMetricSpace / hasSymmetricDistance, its reported extent, the *)
 (* tolerance that applies to it, whether it is bounded / discrete or hybrid /   *)
-(* geodesic) followed by Triple events (C06) or Interp events (C07).            *)
+(* geodesic) followed by Triple events (C06) or Interp events (C07).  Spaces    *)
+(* with laws of their own (Space.fam = "airplane" / "spacetime" / "constrained") *)
+(* add fields to those events or come with their own: STPair (C06, ordered      *)
+(* pairs of a space-time space), InterpBasic (C07, a space-time pair no motion  *)
+(* within the speed limit joins), CInterp (C07, constrained spaces).            *)
 (*                                                                              *)
 (* The spec does not stop at the first broken law: every law is decided on      *)
 (* every event, broken ones are accumulated in `viol` keyed by (space, law,     *)
@@ -57,12 +61,40 @@ TripleFails(c, e) ==
              \cup (IF c.extChecked /\ \E i \in 1..Len(ds) : ~WithinExtent(ds[i], c.ext, tol)
                    THEN {<<"extent", "">>} ELSE {})
              \cup (IF c.plain /\ ~WeightedSum(e.dab, e.parts, c.w, 16, tol) THEN {<<"compound-sum", "">>} ELSE {})
+             \cup (IF c.fam = "airplane"
+                      /\ ~(AtLeastStraightLine(e.dab, e.eab, tol) /\ AtLeastStraightLine(e.dba, e.eab, tol)
+                           /\ AtLeastStraightLine(e.dbc, e.ebc, tol) /\ AtLeastStraightLine(e.dcb, e.ebc, tol)
+                           /\ AtLeastStraightLine(e.dac, e.eac, tol) /\ AtLeastStraightLine(e.dca, e.eac, tol))
+                   THEN {<<"shorter-than-straight-line", "">>} ELSE {})
+
+(* space-time: one ordered pair (a, b) with the reverse distance *)
+STPairFails(c, e) ==
+    LET tol == c.tol
+    IN  IF e.nan THEN {<<"finite", "">>}
+        ELSE (IF ~e.neg /\ e.dab >= 0 /\ e.dba >= 0 THEN {} ELSE {<<"non-negative", "">>})
+             \cup (IF Identity(e.daa, tol) /\ Identity(e.dbb, tol) THEN {} ELSE {<<"identity", "">>})
+             \cup (IF ~Positive(e.eq, e.pos) /\ PosRequired(c, e.sep) THEN {<<"positivity", PairTag(S(e.fab))>>} ELSE {})
+             \cup (IF c.sym /\ ~(e.iab = e.iba /\ Symmetric(e.dab, e.dba, tol) /\ Symmetric(e.ttc, e.ttcr, tol))
+                   THEN {<<"symmetry", "">>} ELSE {})
+             \cup (IF InfiniteIffUnreachable(e.iab, e.ttc, e.dt, c.margin) /\ InfiniteIffUnreachable(e.iba, e.ttcr, e.dt, c.margin)
+                   THEN {} ELSE {<<"infinite-iff-unreachable", IF e.iab \/ e.iba THEN "infinite" ELSE "finite">>})
+             \cup (IF TimeToCoverIsDistanceOverVMax(e.ttc, e.ds, c.vmax, tol) THEN {} ELSE {<<"time-to-cover", "">>})
+             \cup (IF ~e.iab /\ ~WeightedSum(e.dab, <<e.ds, e.dt>>, c.w, 16, tol) THEN {<<"finite-is-weighted-sum", "">>} ELSE {})
 
 InterpFails(c, e) ==
     LET tol == c.tol
     IN  IF e.nan THEN {<<"finite", "">>}
         ELSE (IF Endpoint(e.d0, tol) THEN {} ELSE {<<"endpoint-0", "">>})
-             \cup (IF Endpoint(e.d1, tol) THEN {} ELSE {<<"endpoint-1", "">>})
+             \* (airplane spaces: when getPath() finds no path interpolate() returns `from` for every t - own tag)
+             \cup (IF Endpoint(e.d1, tol) THEN {} ELSE {<<"endpoint-1", IF c.fam = "airplane" /\ e.nopath THEN "no-path" ELSE "">>})
+             \cup (IF c.fam = "airplane"
+                   THEN (IF e.nopath \/ IsPathLength(e.dab, e.plen, tol) THEN {} ELSE {<<"distance-is-path-length", "">>})
+                        \cup (IF AllSet(e.sameP) THEN {} ELSE {<<"point-of-computed-path", "">>})
+                        \cup (IF e.nopath \/ NoJumps(e.cks, e.chord3, e.dab3, c.lip, c.tol3) THEN {} ELSE {<<"no-jumps", "">>})
+                        \* (own tags for a pitch a hair beyond the range and one far beyond it: more than a milliradian)
+                        \cup (IF PitchInRange(e.pex, c.res) THEN {}
+                              ELSE {<<"pitch-in-range", IF PitchInRange(e.pex, 1000000) THEN "slight" ELSE "gross">>})
+                   ELSE {})
              \cup (IF AllSet(e.inb) /\ e.inbS /\ e.inbR THEN {}
                    ELSE IF e.plusPi THEN {<<"in-bounds-plus-pi", "">>} ELSE {<<"in-bounds", "">>})
              \cup (IF AllSet(e.alF) THEN {} ELSE {<<"alias-from", "">>})
@@ -70,6 +102,26 @@ InterpFails(c, e) ==
              \cup (IF ~c.exempt /\ c.geo /\ ~Reparameterised(e.rep, tol) THEN {<<"reparameterisation", "">>} ELSE {})
              \cup (IF ~c.exempt /\ c.geo /\ \E i \in 1..Len(e.ks) : ~Proportional(e.dat[i], e.ks[i], e.dab, tol)
                    THEN {<<"proportionality", "">>} ELSE {})
+
+(* endpoints, bounds, aliasing only *)
+InterpBasicFails(c, e) ==
+    IF e.nan THEN {<<"finite", "">>}
+    ELSE (IF Endpoint(e.d0, c.tol) THEN {} ELSE {<<"endpoint-0", "">>})
+         \cup (IF Endpoint(e.d1, c.tol) THEN {} ELSE {<<"endpoint-1", "">>})
+         \cup (IF AllSet(e.inb) THEN {} ELSE {<<"in-bounds", "">>})
+         \cup (IF AllSet(e.alF) THEN {} ELSE {<<"alias-from", "">>})
+         \cup (IF AllSet(e.alT) THEN {} ELSE {<<"alias-to", "">>})
+
+(* constrained spaces; position i of ks / dfrom / dto / alFd / alTd is the same t = ks[i]/64; ks[1] = 0, ks[2] = 64 *)
+CInterpFails(c, e) ==
+    IF e.nan THEN {<<"finite", "">>}
+    ELSE (IF e.ks[1] = 0 /\ StartsAtFrom(e.dfrom[1], c.tol0) THEN {} ELSE {<<"endpoint-0", "">>})
+         \cup (IF e.ks[2] = 64 /\ EndsAtToOrStays(e.dto[2], e.dfrom[2], e.ok1, e.ok2, c.delta, c.tol0) THEN {}
+               ELSE {<<"endpoint-1", IF e.ok1 /\ e.ok2 THEN "geodesic-succeeded" ELSE "geodesic-failed">>})
+         \cup (IF StaysWhenGeodesicFails(e.dfrom, e.ok1, e.ok2, c.tol0) THEN {} ELSE {<<"from-when-geodesic-fails", "">>})
+         \cup (IF AllSet(e.inb) THEN {} ELSE {<<"in-bounds", "">>})
+         \cup (IF AllWithin(e.alFd, c.aliasTol) THEN {} ELSE {<<"alias-from", "">>})
+         \cup (IF AllWithin(e.alTd, c.aliasTol) THEN {} ELSE {<<"alias-to", "">>})
 
 Record(fails) ==
     LET keys == {<<ctx.name, f[1], f[2]>> : f \in fails}
@@ -82,10 +134,15 @@ Record(fails) ==
 B(b) == IF b THEN 1 ELSE 0
 TInit == l = 1 /\ ctx = [name |-> "none"] /\ viol = <<>>
          /\ cnt = [spaces |-> 0, triples |-> 0, interps |-> 0, triangle |-> 0, symmetry |-> 0, extent |-> 0,
-                   compound |-> 0, unequal |-> 0, reparam |-> 0, proportional |-> 0, metricSpaces |-> 0]
+                   compound |-> 0, unequal |-> 0, reparam |-> 0, proportional |-> 0, metricSpaces |-> 0,
+                   straightLine |-> 0, stPairs |-> 0, stInfinite |-> 0, stFinite |-> 0, noJumps |-> 0, noPath |-> 0,
+                   interpBasic |-> 0, cInterps |-> 0, cReached |-> 0, cFailed |-> 0]
 
 TSpace == /\ Is("Space")
           /\ Ev.tol >= 0 /\ Ev.ext >= 0 /\ Ev.res >= 0
+          /\ Ev.fam \in {"std", "airplane", "spacetime", "constrained"}
+          /\ Ev.lip[1] >= Ev.lip[2] /\ Ev.lip[2] > 0 /\ Ev.vmax[1] > 0 /\ Ev.vmax[2] > 0
+          /\ Ev.margin >= 0 /\ Ev.delta >= 0 /\ Ev.tol0 >= 0 /\ Ev.aliasTol >= 0 /\ Ev.tol3 >= 0
           /\ ctx' = Ev
           /\ cnt' = [cnt EXCEPT !.spaces = @ + 1, !.metricSpaces = @ + B(Ev.metric)]
           /\ UNCHANGED viol
@@ -94,14 +151,33 @@ TTriple == /\ Is("Triple") /\ ctx.name # "none"
            /\ Record(TripleFails(ctx, Ev))
            /\ cnt' = [cnt EXCEPT !.triples = @ + 1, !.triangle = @ + B(ctx.metric), !.symmetry = @ + B(ctx.sym),
                                  !.extent = @ + B(ctx.extChecked), !.compound = @ + B(ctx.plain),
-                                 !.unequal = @ + B(~Ev.eqab) + B(~Ev.eqbc) + B(~Ev.eqac)]
+                                 !.unequal = @ + B(~Ev.eqab) + B(~Ev.eqbc) + B(~Ev.eqac),
+                                 !.straightLine = @ + B(ctx.fam = "airplane")]
+           /\ UNCHANGED ctx
+
+TSTPair == /\ Is("STPair") /\ ctx.fam = "spacetime"
+           /\ Record(STPairFails(ctx, Ev))
+           /\ cnt' = [cnt EXCEPT !.stPairs = @ + 1, !.stInfinite = @ + B(Ev.iab), !.stFinite = @ + B(~Ev.iab),
+                                 !.symmetry = @ + B(ctx.sym), !.unequal = @ + B(~Ev.eq)]
            /\ UNCHANGED ctx
 
 TInterp == /\ Is("Interp") /\ ctx.name # "none"
            /\ Record(InterpFails(ctx, Ev))
            /\ cnt' = [cnt EXCEPT !.interps = @ + 1, !.reparam = @ + B(~ctx.exempt /\ ctx.geo),
-                                 !.proportional = @ + B(~ctx.exempt /\ ctx.geo)]
+                                 !.proportional = @ + B(~ctx.exempt /\ ctx.geo),
+                                 !.noJumps = @ + B(ctx.fam = "airplane" /\ ~Ev.nopath),
+                                 !.noPath = @ + B(ctx.fam = "airplane" /\ Ev.nopath)]
            /\ UNCHANGED ctx
+
+TInterpBasic == /\ Is("InterpBasic") /\ ctx.name # "none"
+                /\ Record(InterpBasicFails(ctx, Ev))
+                /\ cnt' = [cnt EXCEPT !.interpBasic = @ + 1]
+                /\ UNCHANGED ctx
+
+TCInterp == /\ Is("CInterp") /\ ctx.fam = "constrained"
+            /\ Record(CInterpFails(ctx, Ev))
+            /\ cnt' = [cnt EXCEPT !.cInterps = @ + 1, !.cReached = @ + B(Ev.ok1 /\ Ev.ok2), !.cFailed = @ + B(~Ev.ok1 /\ ~Ev.ok2)]
+            /\ UNCHANGED ctx
 
 Verdict == [k |-> "verdict",
             viol |-> {[space |-> k[1], law |-> k[2], tag |-> k[3], n |-> viol[k].n, line |-> viol[k].line] : k \in DOMAIN viol},
@@ -111,7 +187,7 @@ TDone == /\ l = NLog + 1
          /\ l' = l + 1
          /\ UNCHANGED <<ctx, viol, cnt>>
 
-TNext == TSpace \/ TTriple \/ TInterp \/ TDone
+TNext == TSpace \/ TTriple \/ TInterp \/ TSTPair \/ TInterpBasic \/ TCInterp \/ TDone
 TSpec == TInit /\ [][TNext]_tvars
 (* accepted iff the cursor ran past the last line and the verdict was printed *)
 NotAccepted == l <= NLog + 1
